@@ -10,6 +10,7 @@ import Peppi.Tar
 import Peppi.SlppBytes
 import Peppi.TarCut
 import Peppi.SlppCut
+import Peppi.PeppiJson
 set_option linter.unusedVariables false
 namespace Peppi.Props.C18
 
@@ -82,5 +83,23 @@ theorem slppReadL_written {χ : Type} (C : CodecT χ) (T : TextOracle) (g : PGam
     (hs : SizesOK C.toCodec g startBytes endBytes) (skip : Bool) :
     slppReadL C.toCodec T skip (slppWrite C.toCodec g startBytes endBytes) = .ok (if skip then { g with frames := none } else g) :=
   _root_.Peppi.slppReadL_written C T g startBytes endBytes hstart hend hgecko hs skip
+
+/- from `Peppi.PeppiJson` -/
+theorem decPeppiJ_enc (h : Option String) (q : Option Bool) : decPeppiJ (encPeppiJ h q) = .ok ⟨true, h, q⟩ :=
+  _root_.Peppi.decPeppiJ_enc h q
+
+/- from `Peppi.PeppiJson` -/
+theorem decPeppiJ_encV (a b c : Nat) (ha : a ≤ 255) (hb : b ≤ 255) (hc : c ≤ 255) (h : Option String) (q : Option Bool) :
+    decPeppiJ (encPeppiV a b c h q) = .ok ⟨decide (2 ≤ a), h, q⟩ :=
+  _root_.Peppi.decPeppiJ_encV a b c ha hb hc h q
+
+/- from `Peppi.SlppCut` -/
+theorem slppRead_written_json2 (C : Codec KVs) (T : TextOracle) (g : PGame KVs) (startBytes : Bytes) (endBytes : Option Bytes)
+    (hstart : gameStart T startBytes = .ok g.start)
+    (hend : endBytes.map gameEnd = g.fend.map Res.ok)
+    (hgecko : ∀ c, g.gecko = some c → c.2 < 2 ^ 32)
+    (hs : SizesOK C.withJson g startBytes endBytes) (skip : Bool) :
+    slppRead C.withJson T skip (slppWrite C.withJson g startBytes endBytes) = .ok (if skip then { g with frames := none } else g) :=
+  _root_.Peppi.slppRead_written_json2 C T g startBytes endBytes hstart hend hgecko hs skip
 
 end Peppi.Props.C18
